@@ -9,12 +9,79 @@ EXPLANATION = ("Kani/CBMC over the real KyroDbConfig::validate on KyroDbConfig::
 TRUSTED_BASE = ["Kani/CBMC", "stubs: std::fmt::format, Backtrace::capture, RandomState::new", "loopback class of each host literal given as a table in the harness"]
 NOT_COVERED = ["values arriving through TOML/YAML/environment (the config crate's deserialiser)", "host/environment strings other than the literal table", "the remaining (non-safety) settings are the defaults"]
 
-ROWS = [("pilot_lo", "quick"), ("pilot_any", "quick"), ("pilot_mixedcase_any", "quick"), ("pilot_upper_lo", "thorough"), ("production_lo", "thorough"), ("production_any", "quick"),
-        ("production_upper_lan", "quick"), ("production_v6", "thorough"), ("production_padded_lo", "thorough"), ("benchmark_any", "thorough"), ("invalid_env", "thorough"), ("empty_env", "thorough")]
+ROWS = [("pilot_lo", "thorough"), ("pilot_any", "thorough"), ("pilot_mixedcase_any", "quick"), ("pilot_upper_lo", "thorough"), ("production_lo", "thorough"), ("production_any", "thorough"),
+        ("production_upper_lan", "thorough"), ("production_v6", "thorough"), ("production_padded_lo", "thorough"), ("benchmark_any", "thorough"), ("invalid_env", "thorough"), ("empty_env", "thorough")]
 F = [("config.rs", "validate"), ("config.rs", "is_loopback_host")]
 HARNESSES = [KH("O18.1/" + r, "c18_" + r, "validate() accepts only configurations allowed by the property statement (row %s)" % r, src="config.rs", functions=F,
                 bounds="environment/host literals of row %s; 13 symbolic settings incl. snapshot interval over all u64" % r, tier=t, timeout=900) for r, t in ROWS]
 
 
+V = "config::KyroDbConfig::validate"
+ENVCMP = r"^call <String as PartialEq<&str>>::(eq|ne)\("
+NONBENCH = Arm(ENVCMP, {"otherwise"}, name='environment_type != "benchmark"', nth=0)
+PILOT = Arm(ENVCMP, {"otherwise"}, name='environment_type == "pilot"', nth=1)
+PROD = Arm(ENVCMP, {"otherwise"}, name='environment_type == "production"', nth=2)
+OK = stmt(r"^_0 = Result::<\(\), anyhow::Error>::Ok\(", name="return Ok(())")
+FLD = lambda path: r"\(\(\(\*\{arg\(_1: &KyroDbConfig\)\}\)\." + path
+
+
+def env_normalised(F):
+    """Every comparison of the environment against a literal uses the trimmed, lower-cased string."""
+    from vlib.mirflow import origin as _o
+    import re as _re
+    fc = FnCheck(F, V)
+    if fc.fn is None:
+        return fc.missing()
+    cmps = []
+    for idx in sorted(fc.fn.blocks):
+        b = fc.fn.blocks[idx]
+        if b.cleanup or b.kind != "switch":
+            continue
+        o = _o(fc.fn, b.switch_local)
+        if _re.search(ENVCMP, o):
+            cmps.append((idx, o))
+    if len(cmps) != 3:
+        return Result("inconclusive", "expected 3 environment comparisons in validate, found %d" % len(cmps))
+    bad = [(i, o) for i, o in cmps if "to_ascii_lowercase" not in o]
+    r = fc.reachable(OK)
+    if bad:
+        return Result("violated", "environment compared without normalisation at bb%d: %s (a spelling such as 'PILOT' or ' pilot ' passes the name check but skips this branch)" % (bad[0][0], bad[0][1][:160]),
+                      queries=r.queries, seconds=r.seconds, sample={"fn": fc.name, "kind": "PROVENANCE", "comparisons": [o[:120] for _i, o in cmps]})
+    return Result("holds", "3 comparisons, all on trim().to_ascii_lowercase()", queries=r.queries, seconds=r.seconds, sample={"fn": fc.name, "kind": "PROVENANCE", "comparisons": [o[:120] for _i, o in cmps]})
+
+
+MOS = [
+    MO("O18.3/normalised", "validate: the environment name is trimmed and lower-cased once and every branch decision (benchmark / pilot / production) is taken on that normalised value", env_normalised,
+       functions=[("config.rs", "validate")]),
+    MO("O18.3/durability", "validate: outside benchmark, Ok is reachable only with cache strategy Learned, fsync policy != None, snapshot interval != 0, recovery mode Strict",
+       allof(never(V, OK, assume=[NONBENCH, Arm(r"^discr\(" + FLD(r"\d+: config::CacheConfig\)\.\d+: config::CacheStrategy\)\)$"), {"otherwise"}, name="strategy != Learned")]),
+             never(V, OK, assume=[NONBENCH, Arm(r"^discr\(" + FLD(r"\d+: config::PersistenceConfig\)\.\d+: config::FsyncPolicy\)\)$"), {"0"}, name="fsync_policy == None")]),
+             never(V, OK, assume=[NONBENCH, Arm(r"^Eq\(" + FLD(r"\d+: config::PersistenceConfig\)\.\d+: u64\), const 0_u64\)$"), {"otherwise"}, name="snapshot_interval_mutations == 0")]),
+             never(V, OK, assume=[NONBENCH, Arm(r"^discr\(" + FLD(r"\d+: config::PersistenceConfig\)\.\d+: config::RecoveryMode\)\)$"), {"1"}, name="recovery_mode == BestEffort")])),
+       functions=[("config.rs", "validate")]),
+    MO("O18.3/pilot", "validate: in pilot, Ok is reachable only with auth, rate limiting, protected observability, no fresh start, and TLS or a loopback bind",
+       allof(never(V, OK, assume=[PILOT, Arm(r"^ensure_not\(" + FLD(r"\d+: config::AuthConfig\)\.0: bool\)\)$"), {"otherwise"}, name="auth.enabled == false", nth=0)]),
+             never(V, OK, assume=[PILOT, Arm(r"^ensure_not\(" + FLD(r"\d+: config::RateLimitConfig\)\.0: bool\)\)$"), {"otherwise"}, name="rate_limit.enabled == false")]),
+             never(V, OK, assume=[PILOT, Arm(r"^ensure_not\(call <ObservabilityAuthMode as PartialEq>::ne\)$", {"otherwise"}, name="observability_auth == Disabled", nth=0)]),
+             never(V, OK, assume=[PILOT, Arm(r"^ensure_not\(not\(" + FLD(r"\d+: config::PersistenceConfig\)\.\d+: bool\)\)\)$"), {"otherwise"}, name="allow_fresh_start_on_recovery_failure == true")]),
+             never(V, OK, assume=[PILOT, Arm(r"^\(" + FLD(r"\d+: config::ServerConfig\)\.\d+: config::TlsConfig\)\.0: bool\)$"), {"0"}, name="tls.enabled == false", nth=0),
+                                  Arm(r"^ensure_not\(alt\(call (config::)?is_loopback_host \| const true\)\)$", {"otherwise"}, name="host is not loopback")])),
+       functions=[("config.rs", "validate")]),
+    MO("O18.3/production", "validate: in production a non-loopback gRPC bind requires auth; a non-loopback HTTP bind requires protected observability",
+       allof(never(V, OK, assume=[PROD, Arm(r"^call (config::)?is_loopback_host$", {"0"}, name="gRPC host not loopback", nth=0),
+                                  Arm(r"^ensure_not\(" + FLD(r"\d+: config::AuthConfig\)\.0: bool\)\)$"), {"otherwise"}, name="auth.enabled == false", nth=1)]),
+             never(V, OK, assume=[PROD, Arm(r"^call (config::)?is_loopback_host$", {"0"}, name="HTTP host not loopback", nth=1),
+                                  Arm(r"^ensure_not\(call <ObservabilityAuthMode as PartialEq>::ne\)$", {"otherwise"}, name="observability_auth == Disabled", nth=1)])),
+       functions=[("config.rs", "validate")]),
+    MO("O18.3/loopback", "is_loopback_host: true only for ::1, localhost or a 127. prefix of the trimmed, unbracketed, zone-stripped, lower-cased host; empty is false",
+       allof(only_via("config::is_loopback_host", stmt(r"^_0 = const true;$", name="return true"), Arm(r"^call core::str::<impl str>::is_empty$", {"0"}, name="host not empty")),
+             lambda F: FnCheck(F, "config::is_loopback_host").reachable(call(r"to_ascii_lowercase\(", name="to_ascii_lowercase")),
+             lambda F: FnCheck(F, "config::is_loopback_host").reachable(call(r"starts_with::<&str>\(", name='starts_with("127.")'))),
+       functions=[("config.rs", "is_loopback_host")]),
+]
+
+
 def run(tier, seed, notes):
-    return run_kani_group("C18", tier, "lib", {"config.rs": "config_proofs.rs"}, HARNESSES, jobs=8, notes=notes)
+    obls = run_mir_obligations("C18", tier, MOS, notes)
+    obls += run_kani_group("C18", tier, "lib", {"config.rs": "config_proofs.rs"}, HARNESSES, jobs=8, notes=notes, harness_timeout=(900 if tier == "quick" else 2400))
+    return obls
